@@ -176,6 +176,27 @@ CLAIMED = {
                   "polynomial identity, who-may-call rule",
         design="DESIGN.md §4 C14",
     ),
+    "C16": dict(
+        level="other",
+        text="Structural clauses of tolerant loading and clean refusal: every keyed read of the physical package in the loader "
+             "is dominated by the membership test for the same key and map (small dominance analysis over the repository's guard "
+             "idioms: conditional expression, comprehension filter, early continue, enclosing test); the relationship target "
+             "lookup parts[...] in _Relationship.from_xml sits in the non-External branch, its only caller is the "
+             "dangling-target filter of load_from_xml, which tests the same key expression (modulo parameter renaming) on the same "
+             "map first, and ST_TargetMode admits exactly External/Internal; a missing relationship item yields an empty "
+             "relationship set; parts are built from the reached names so xml_rels[partname] cannot miss; the walk skips external "
+             "targets and visited names; for a str path every way through _PhysPkgReader.factory ends in a reader chosen after "
+             "isdir / is_zipfile or in PackageNotFoundError (a PythonPptxError), a stream goes to the zip reader; both readers "
+             "report a missing member as KeyError; api.Presentation raises ValueError for a main part whose content type is not "
+             "a presentation main type before using it; unregistered content types fall back to Part; both content-type tables are "
+             "case-insensitive with guarded lookups; missing core properties are replaced by a related default part; slide parts "
+             "are renamed slide<i+1> for the i-th rId of the id list, unconditionally. NOT decided: which exception escapes "
+             "lxml/zipfile for arbitrary corrupt bytes; combinations of irregularities at run time.",
+        technique="static analysis: membership-guard dominance analysis for keyed dereferences, who-may-call rule closing the "
+                  "interprocedural case, path enumeration of the reader factory, refusal-before-use ordering, exception types "
+                  "at raise sites",
+        design="DESIGN.md §4 C16",
+    ),
     "C15": dict(
         level="other",
         text="Structural clauses of 'images are stored once, with the type of the actual image': the four literal tables are "
@@ -240,7 +261,7 @@ NOT_APPLICABLE = {
     "C02": _NOT_BUILT, "C04": _NOT_BUILT,
     "C06": _NOT_BUILT, "C08": _NOT_BUILT, "C09": _NOT_BUILT,
     "C12": _NOT_BUILT, "C13": _NOT_BUILT,
-    "C16": _NOT_BUILT, "C17": _NOT_BUILT, "C18": _NOT_BUILT,
+    "C17": _NOT_BUILT, "C18": _NOT_BUILT,
     "C19": "part-name arithmetic is an equation between values of pure string functions (posixpath "
            "semantics) over all name pairs; no table, ordering or ownership fact in the source determines it; "
            "bounding it needs concrete or symbolic evaluation, a different technique family",
